@@ -10,7 +10,7 @@ import (
 )
 
 const (
-	stallWindowC33 = 6 * time.Second // a stall is C32's business: the C33 run only stops waiting
+	stallWindowC33 = 3 * time.Second // a stall is C32's business: the C33 run only stops waiting
 	replayReps     = 8
 )
 
